@@ -187,6 +187,20 @@ type c18dedupPlan struct {
 	Snaps     int    `json:"snaps_per_batch"`
 	Order     string `json:"order"` // shuffled | grouped | interleaved
 	Seed      uint64 `json:"seed"`
+	SlowCache int    `json:"slow_cache_us"` // > 0: the agent's cache answers Get after this many microseconds (widens the window between "seen?" and "mark seen")
+}
+
+// c18slowCache delays Get: a processor that handles one message at a time is unaffected, one that lets two
+// copies of a batch run the "seen? / mark seen" pair concurrently lets both through.
+type c18slowCache struct {
+	gossip.Cache
+	d time.Duration
+}
+
+func (s *c18slowCache) Get(key []byte) ([]byte, error) {
+	v, err := s.Cache.Get(key)
+	time.Sleep(s.d) // after the lookup: the answer is already decided, the caller acts on it later
+	return v, err
 }
 
 var c18portCounter int64
@@ -209,6 +223,9 @@ func c18runDedup(c *lib.Ctx, p *c18dedupPlan) {
 	if agent.Cache == nil {
 		c.Inconclusive(p.ID + ": agent built from a config has no cache")
 		return
+	}
+	if p.SlowCache > 0 {
+		agent.Cache = &c18slowCache{Cache: agent.Cache, d: time.Duration(p.SlowCache) * time.Microsecond}
 	}
 	rec := newC18rec()
 	tm := gossip.NewSimpleTasksManager(5*time.Millisecond, 64)
@@ -302,6 +319,17 @@ func c18runDedup(c *lib.Ctx, p *c18dedupPlan) {
 	if !done() {
 		c.Inconclusive(p.ID + ": sentinel batch was not processed (watchdog)")
 		return
+	}
+	// the sentinel only proves that everything before it is finished if messages are handled one at a time,
+	// which is part of what is being checked: also wait until the task counters stand still
+	quiet := 20*time.Millisecond + 10*time.Duration(p.SlowCache)*time.Microsecond
+	for last, still := int64(-1), 0; still < 2 && time.Since(t0) < 60*time.Second; {
+		time.Sleep(quiet)
+		if n := atomic.LoadInt64(&rec.ncreated) + atomic.LoadInt64(&rec.nexecuted); n == last {
+			still++
+		} else {
+			last, still = n, 0
+		}
 	}
 	rec.mu.Lock()
 	defer rec.mu.Unlock()
@@ -1414,6 +1442,17 @@ func RunC18(c *lib.Ctx) {
 			Factories: rb.Pick(1, 2, 3), Snaps: rb.Pick(1, 2, 10), Order: []string{"shuffled", "grouped", "interleaved"}[i%3], Seed: rb.Uint64()}
 		if i%6 == 0 && dplans[i].Repeats == 1 {
 			dplans[i].Repeats = 4
+		}
+		if i%4 == 1 {
+			// copies of a batch arriving at the same moment (several peers gossip it at once), slow cache
+			dplans[i].SlowCache = rb.Pick(200, 1000, 3000)
+			dplans[i].Order = "grouped"
+			if dplans[i].Repeats < 3 {
+				dplans[i].Repeats = 4
+			}
+			if dplans[i].Batches > 20 {
+				dplans[i].Batches = 20
+			}
 		}
 	}
 	parallel(nd, 6, func(i int) {
